@@ -263,7 +263,7 @@ impl Prop for C16 {
         96
     }
     fn cases(&self, t: Tier) -> usize {
-        t.pick(30_000, 600_000)
+        t.pick(200_000, 10_000_000)
     }
     fn rule(&self) -> String {
         "tape-decoded 2-5-layer network (dense / convolution / deconvolution / max-pool, steered so that element counts repeat, flat<->spatial crossings occur) + 1-3 connect(a, b) calls drawn from all pairs a <= b with equal element counts (a = b, a = 0, repeated targets, repeated sources, chains (0,1),(1,2)) + one of five accumulations. Oracles: (a) acceptance model - calls with sources and targets distinct from earlier ones must be accepted, and after every accepted call all earlier pairs must still be present; (b) predict == hand-composition of the library's own layers where layer b receives acc(ordinary input, reshape(input of a)) (<= 2 ulp; when a source is itself a target both readings of 'its input' are accepted); (c) in 1/3 of the cases, additive accumulation and the C01 derivative check (f64 reference network with the skip connections) on every parameter gradient. Non-trivial: an accepted connection with a < b. Distinct = (architecture, accepted connections, accumulation).".into()
